@@ -207,6 +207,17 @@ def step (st : State) (line : String) : State × String :=
         let st' := { st with s := s' }
         (st', snapshot st' st.s)
       | none => (st, "bad-op")
+    -- `wqc <cmd>`: the command reaches the queue through `WakerQueue::wake` called while the queue's mutex is
+    -- busy; in the model `wake` is atomic, so this is the plain command (on a quiet loop only: nothing waiting
+    -- to be accepted, nothing queued)
+    | ["wqc", k] =>
+      if st.s.exited || decide (st.s.nextConn > st.s.dispatched.length) || !st.s.wq.isEmpty then (st, "bad-op") else
+      match (if k == "pause" then some Interest.pause else if k == "resume" then some Interest.resume
+             else if k == "stop" then some Interest.stop else none) with
+      | some i =>
+        let st' := { st with s := runEnv st.cfg st.s [.cmd i] }
+        (st', snapshot st' st.s)
+      | none => (st, "bad-op")
     | ["env", acts] => match parseActs acts with
       | some as =>
         let st' := { st with s := runEnv st.cfg st.s as }
@@ -218,7 +229,11 @@ def step (st : State) (line : String) : State × String :=
         let sched := if (kv rest "y").isNone then [] else sched
         if st.s.exited then (st, "ev=ok yields=0 " ++ snapshot st st.s) else
         let st' := { st with s := ActixNet.Srv.poll st.cfg st.s order sched }
-        let ev := evCheck st.s order st'.s.exited
+        -- `quiet=1`: the driver did not ring the waker itself, so the waker event is there iff an interest is queued
+        let ev := if (kv rest "quiet") == some "1" then
+            (if order.contains .waker == !st.s.wq.isEmpty then evCheck st.s (if order.contains .waker then order else .waker :: order) st'.s.exited
+             else "MISMATCH(waker-event)")
+          else evCheck st.s order st'.s.exited
         (st', s!"ev={ev} yields={st'.s.yields} " ++ snapshot st' st.s)
       | _, _ => (st, "bad-op")
     | "finishw2" :: w :: c :: rest =>
